@@ -116,7 +116,7 @@ func (a tokSet) meets(b tokSet) bool {
 
 type ownState struct {
 	p       *core.Program
-	recv    types.Object // the method's receiver (fields of it outlive the call)
+	recv    types.Object      // the method's receiver (fields of it outlive the call)
 	places  map[string]tokSet // "v:<objptr>" or "*v:<objptr>"
 	freed   tokSet
 	freedAt map[int]token.Pos
